@@ -1083,6 +1083,23 @@ pub mod verif_hooks {
         errors.iter().map(|e| e.as_ref().to_vec()).collect()
     }
 
+    /// `reset_fixed_lpc_errors` on planes that hold the given stale contents; returns, per order,
+    /// every lane of the plane (padding lanes included) and its logical length.
+    pub fn fixed_errors_with_stale(stale: &[Vec<i32>], signal: &[i32]) -> Vec<(Vec<i32>, usize)> {
+        let mut errors = FixedLpcErrors::default();
+        for (e, s) in errors.iter_mut().zip(stale.iter()) {
+            e.reset_from_slice(s);
+        }
+        reset_fixed_lpc_errors(&mut errors, signal);
+        errors
+            .iter()
+            .map(|e| {
+                let lanes: Vec<i32> = e.as_ref_simd().iter().flat_map(|v| v.as_array().to_vec()).collect();
+                (lanes, e.len())
+            })
+            .collect()
+    }
+
     pub fn entropy_estimate(errors: &[i32], warmup_len: usize, partitions: usize) -> usize {
         estimate_entropy(errors, warmup_len, partitions)
     }
